@@ -173,16 +173,31 @@ class C01(EvalProp):
         the text, the expected values come from walking the document in the harness (no syntax tree involved)"""
         r = g.r
         cases, want = [], {}
+        def below(v):
+            """the containers below (and including) v, pre-order, objects in ascending key order"""
+            out = []
+            if v[0] == 'a':
+                out.append(v)
+                for x in v[1]:
+                    out += below(x)
+            elif v[0] == 'o':
+                out.append(v)
+                for _, x in sorted(v[1], key=lambda kv: kv[0]):
+                    out += below(x)
+            return out
         for i in range(ctx.n(600, 6000) * budget_scale):
             doc = g.doc(3, False, 0)
             cur, text, spec = [doc], '$', []
             for _ in range(r.randint(1, 4)):
+                rec = r.random() < 0.25
+                if rec:
+                    cur = [c1 for v in cur for c1 in below(v)]
                 conts = [v for v in cur if v[0] in 'ao']
                 k = r.random()
                 if k < 0.3 or not conts:
                     dotw = r.random() < 0.5
-                    text += '.*' if dotw else '[*]'
-                    spec.append((2,) if dotw else (3,))
+                    text += ('..*' if dotw else '..[*]') if rec else ('.*' if dotw else '[*]')
+                    spec.append((4, 2 if dotw else 3, []) if rec else ((2, []) if dotw else (3, [])))
                     nxt = []
                     for v in cur:
                         if v[0] == 'o':
@@ -195,21 +210,23 @@ class C01(EvalProp):
                 if c0[0] == 'a':
                     n_ = r.randint(0, len(c0[1]) + 1)
                     digits = ('0' * r.choice([0, 0, 1])) + str(n_)
-                    text += '[' + digits + ']'
-                    spec.append((1, [ord(ch) for ch in digits]))
+                    text += ('..' if rec else '') + '[' + digits + ']'
+                    cps_ = [ord(ch) for ch in digits]
+                    spec.append((4, 1, cps_) if rec else (1, cps_))
                     cur = [v[1][n_] for v in cur if v[0] == 'a' and n_ < len(v[1])]
                 else:
                     kb = r.choice(c0[1])[0] if c0[1] and r.random() < 0.85 else b'zz9'
                     key = kb.decode('utf-8')
                     dot = gens.esc_dot(kb)
                     style = r.choice("'\"." if dot is not None else "'\"")
+                    cps_ = [ord(ch) for ch in key]
                     if style == '.':
-                        text += '.' + dot.decode('utf-8')
-                        spec.append((0, [ord(ch) for ch in key]))
+                        text += ('..' if rec else '.') + dot.decode('utf-8')
+                        spec.append((4, 0, cps_) if rec else (0, cps_))
                     else:
                         body = ''.join('\\' + ch if ch in (style, '\\') else ('\\u%04x' % ord(ch) if ord(ch) < 0x20 else ch) for ch in key)
-                        text += '[' + style + body + style + ']'
-                        spec.append((ord(style), [ord(ch) for ch in key]))
+                        text += ('..' if rec else '') + '[' + style + body + style + ']'
+                        spec.append((4, ord(style), cps_) if rec else (ord(style), cps_))
                     nxt = []
                     for v in cur:
                         if v[0] == 'o':
@@ -217,7 +234,7 @@ class C01(EvalProp):
                             nxt += hit[-1:]
                     cur = nxt
             c = Case('ch%d' % i, text.encode('utf-8'), [doc], meta={'nsteps': len(spec), 'family': 'coq-chain-path'})
-            c.keyc = [(q, k_) if len(sp_) == 2 else (sp_[0], []) for sp_ in spec for (q, k_) in [(sp_ + ([],))[:2]]]
+            c.keyc = spec
             want[c.id] = 'ok:[' + ','.join(core.doc_render(v) for v in cur) + ']' if cur else 'fail'
             cases.append(c)
         go, mo = both_sides(cases)
